@@ -41,7 +41,11 @@ var VHub = &VerifHub{}
 
 func VerifInstallHub() {
 	loghub.ErrorLogger.Hub = verifHubAdapter{VHub}
-	loghub.ErrorLogger.SetLevel(loghub.INFO)
+	if VHub.Keep {
+		loghub.ErrorLogger.SetLevel(loghub.INFO)
+	} else {
+		loghub.ErrorLogger.SetLevel(loghub.FATAL)
+	}
 }
 
 // ---- configuration -----------------------------------------------------
